@@ -45,11 +45,112 @@ fn state(dest: &Path, expected: &[u8]) -> String {
     }
 }
 
+// ---- the download path (wholesym/src/downloader.rs download_to_file -> create_file_cleanly): a .sym file fetched from a Breakpad symbol server ----
+// One case per line: D <scratch dir> <number of FUNC records> <gzip|identity> <cut: per mille of the body that the first response carries, 1000 = all>
+// A local HTTP server answers the first request with a body cut short (gzip: a well-formed message around a compressed stream that ends early;
+// identity: fewer bytes than Content-Length announces, then the connection closes) and
+// every later request completely.  Output: "dl first=<absent|complete|partial:n> ok1=<0|1> retry=<...> ok2=<0|1>" for the file in the download cache.
+fn crc32(data: &[u8]) -> u32 {
+    let mut crc = 0xFFFF_FFFFu32;
+    for &b in data {
+        crc ^= b as u32;
+        for _ in 0..8 {
+            crc = if crc & 1 != 0 { (crc >> 1) ^ 0xEDB8_8320 } else { crc >> 1 };
+        }
+    }
+    !crc
+}
+
+/// a gzip member made of stored deflate blocks
+fn gzip_stored(data: &[u8]) -> Vec<u8> {
+    let mut out = vec![0x1f, 0x8b, 8, 0, 0, 0, 0, 0, 0, 3];
+    let mut chunks = data.chunks(60000).peekable();
+    if data.is_empty() {
+        out.extend_from_slice(&[1, 0, 0, 0xff, 0xff]);
+    }
+    while let Some(c) = chunks.next() {
+        out.push(if chunks.peek().is_none() { 1 } else { 0 });
+        out.extend_from_slice(&(c.len() as u16).to_le_bytes());
+        out.extend_from_slice(&(!(c.len() as u16)).to_le_bytes());
+        out.extend_from_slice(c);
+    }
+    out.extend_from_slice(&crc32(data).to_le_bytes());
+    out.extend_from_slice(&(data.len() as u32).to_le_bytes());
+    out
+}
+
+fn serve(listener: std::net::TcpListener, bodies: Vec<(Vec<u8>, bool)>, full_len: usize) {
+    use std::io::{Read, Write};
+    // bodies[k] answers the k-th request (the last one answers all later ones); (bytes, gzip?)
+    let mut k = 0usize;
+    for stream in listener.incoming() {
+        let Ok(mut stream) = stream else { continue };
+        let mut req = Vec::new();
+        let mut buf = [0u8; 4096];
+        while !req.windows(4).any(|w| w == b"\r\n\r\n") {
+            match stream.read(&mut buf) {
+                Ok(0) | Err(_) => break,
+                Ok(n) => req.extend_from_slice(&buf[..n]),
+            }
+        }
+        if req.starts_with(b"QUIT") {
+            return;
+        }
+        let (body, gz) = &bodies[k.min(bodies.len() - 1)];
+        k += 1;
+        // gzip: the message is well-formed (Content-Length = the bytes sent) and the compressed stream inside it ends early;
+        // identity: Content-Length announces the whole file and the connection is closed after fewer bytes
+        let head = format!("HTTP/1.1 200 OK\r\nContent-Type: text/plain\r\n{}Content-Length: {}\r\nConnection: close\r\n\r\n",
+                           if *gz { "Content-Encoding: gzip\r\n" } else { "" }, if *gz { body.len() } else { full_len });
+        let _ = stream.write_all(head.as_bytes());
+        let _ = stream.write_all(body);
+        let _ = stream.flush();
+    }
+}
+
+fn run_download(rt: &tokio::runtime::Runtime, t: &[&str]) -> String {
+    let root = PathBuf::from(t[1]);
+    let n: u32 = t[2].parse().unwrap();
+    let gz = t[3] == "gzip";
+    let cut: usize = t[4].parse().unwrap();
+    let _ = std::fs::remove_dir_all(&root);
+    let sym = make_sym(n);
+    let full = if gz { gzip_stored(&sym) } else { sym.clone() };
+    let first = full[..full.len() * cut / 1000].to_vec();
+    let listener = std::net::TcpListener::bind("127.0.0.1:0").unwrap();
+    let port = listener.local_addr().unwrap().port();
+    let full_len = full.len();
+    let bodies = vec![(first, gz), (full, gz)];
+    let server = std::thread::spawn(move || serve(listener, bodies, full_len));
+    let cache = root.join("dlcache");
+    let rel = Path::new(DEBUG_NAME).join(BREAKPAD_ID).join("big.sym");
+    let dest = cache.join(&rel);
+    let out = rt.block_on(async {
+        let cfg = SymbolManagerConfig::default().breakpad_symbol_server(format!("http://127.0.0.1:{port}/"), &cache);
+        let ok1 = load(cfg.clone()).await;
+        let first = state(&dest, &sym);
+        let ok2 = load(cfg).await;
+        let retry = state(&dest, &sym);
+        format!("dl first={} ok1={} retry={} ok2={}", first, ok1 as u8, retry, ok2 as u8)
+    });
+    if let Ok(mut s) = std::net::TcpStream::connect(("127.0.0.1", port)) {
+        use std::io::Write;
+        let _ = s.write_all(b"QUIT\r\n\r\n");
+    }
+    let _ = server.join();
+    let _ = std::fs::remove_dir_all(&root);
+    out
+}
+
 fn main() {
     let rt = tokio::runtime::Builder::new_multi_thread().enable_all().build().unwrap();
     for line in std::io::stdin().lock().lines() {
         let line = line.unwrap();
         let t: Vec<&str> = line.split_whitespace().collect();
+        if t.first() == Some(&"D") {
+            println!("{}", run_download(&rt, &t));
+            continue;
+        }
         let root = PathBuf::from(t[0]);
         let n: u32 = t[1].parse().unwrap();
         let mut limit: u64 = t[2].parse().unwrap();
